@@ -30,7 +30,10 @@ RULE = ('lookup: a FRESH interpreter per case (module defaults are read from the
         'and .. components — with probe files such as <root>2/x.py; the same texts for APP_ROOT from code and from '
         'DEEP_APP_ROOT through deep.start). timer: RepeatedTimer with the interval as '
         'number or text. d30: IN_APP_INCLUDE/EXCLUDE given in code as the documented comma separated str (known '
-        'finding stream). Non-trivial = a level below "code" decided / an exclusion or inclusion matched / the timer '
+        'finding stream). ga: ConfigService.__getattribute__ alone, in-process — code dict of 0–6 entries over module settings, '
+        'unknown names, names the object has of its own and dunders (None, plain values, callables of every kind), an object '
+        'whose custom dict is None (a fifth), DEEP_<name> for names the module does not have; ~14 names read per case. '
+        'Non-trivial = a level below "code" decided / an exclusion or inclusion matched / the timer '
         'ticked. Distinct = distinct canonical JSON.')
 TRUSTED = ['os.getenv / process environment; inspect.stack()[1].filename = the file that calls deep.start',
            'float(text) for the interval texts used; Py.parseInt for integer texts in the model',
@@ -43,11 +46,34 @@ ASSUMPTIONS = ['code-given IN_APP_INCLUDE / IN_APP_EXCLUDE are lists of str (the
                'logging.init (use site of LOGGING_CONF) is replaced by a no-op when deep.start is driven']
 
 PY = '/venv/bin/python'
-DOCUMENTED = ['SERVICE_URL', 'SERVICE_SECURE', 'LOGGING_CONF', 'POLL_TIMER', 'SERVICE_AUTH_PROVIDER', 'IN_APP_INCLUDE',
+_DOCUMENTED_PINNED = ['SERVICE_URL', 'SERVICE_SECURE', 'LOGGING_CONF', 'POLL_TIMER', 'SERVICE_AUTH_PROVIDER', 'IN_APP_INCLUDE',
               'IN_APP_EXCLUDE', 'APP_ROOT']
 # docs/config/config.md: Default column
-DOC_DEFAULT = {'SERVICE_URL': {'s': 'deep:43315'}, 'SERVICE_SECURE': {'s': 'True'}, 'LOGGING_CONF': None,
-               'POLL_TIMER': {'i': 10}, 'SERVICE_AUTH_PROVIDER': None}
+_DOC_DEFAULT_PINNED = {'SERVICE_URL': {'s': 'deep:43315'}, 'SERVICE_SECURE': {'s': 'True'}, 'LOGGING_CONF': None,
+                       'POLL_TIMER': {'i': 10}, 'SERVICE_AUTH_PROVIDER': None}
+
+
+def doc_table():
+    """(documented keys, documented defaults) enumerated from the settings table of docs/config/config.md of the
+    tree under test (Key and Default columns) — the pinned copies above are only the fallback for a tree without docs."""
+    import re
+    try:
+        with open(os.path.join(core.REPO, 'docs/config/config.md'), encoding='utf-8') as f:
+            rows = re.findall(r'^\|\s*([A-Z][A-Z0-9_]+)\s*\|\s*([^|]*?)\s*\|', f.read(), flags=re.M)
+    except OSError:
+        rows = []
+    if not rows:
+        return list(_DOCUMENTED_PINNED), dict(_DOC_DEFAULT_PINNED)
+    keys, dflt = [], {}
+    for k, d in rows:
+        keys.append(k)
+        if k in ('IN_APP_INCLUDE', 'IN_APP_EXCLUDE') or d == 'Calculated':
+            continue        # list-valued / derived settings: judged by their own rules (ref_lookup)
+        dflt[k] = None if d == 'None' else ({'i': int(d)} if d.lstrip('-').isdigit() else {'s': d})
+    return keys, dflt
+
+
+DOCUMENTED, DOC_DEFAULT = doc_table()
 UNKNOWN = ['MY_KEY', 'UNKNOWN_A', 'SERVICE_TIMEOUT', 'lower_key', 'APP_ROOTS']
 BOOL_KEYS = ['SERVICE_SECURE', 'PLUGIN_X', 'PLUGIN_Y']      # read through str2bool at their use sites
 DUNDERS = ['__hash__', '__class__', '__doc__', '__module__', '__name__', '__file__', '__str__']
@@ -405,6 +431,25 @@ def g_lookup(rng):
             'none_config': rng.random() < 0.5}
 
 
+GA_ENV_KEYS = ['MY_KEY', 'UNKNOWN_A', 'SERVICE_TIMEOUT', 'lower_key', 'APP_ROOTS', 'plugins', '__doc__', '_plugins']
+
+
+def g_ga(rng):
+    """`ConfigService.__getattribute__` alone, in-process: the code dict (or an object whose `__custom` is None),
+    DEEP_<name> variables for names that are not module settings (module settings are read at import: they are the
+    fresh-interpreter stream's), every kind of name: module setting, unknown, own attribute, dunder."""
+    custom, env = [], {}
+    pool = list(DOCUMENTED) + ['PLUGINS'] + UNKNOWN + OWN + DUNDERS + ['PLUGIN_X', '_plugins', '_resource']
+    for k in rng.sample(pool, rng.choice([0, 1, 2, 4, 6])):
+        r = rng.random()
+        v = None if r < 0.25 else (g_callable(rng, g_cval(rng, 1)) if r < 0.5 else g_cval(rng))
+        custom.append([k, v])
+    for k in rng.sample(GA_ENV_KEYS, rng.choice([0, 1, 2, 3])):
+        env['DEEP_' + k] = rng.choice(TEXTS)
+    names = rng.sample(pool, min(len(pool), 8)) + [k for k, _ in custom][:4] + rng.sample(GA_ENV_KEYS, 2)
+    return {'kind': 'ga', 'custom': custom, 'custom_none': rng.random() < 0.2, 'env': env, 'names': names}
+
+
 def g_timer(rng):
     return {'kind': 'timer', 'interval': rng.choice([{'s': '0.02'}, {'f': '0.02'}, {'s': ' 0.05 '}, {'s': '1'}, {'i': 1},
                                                      {'s': '10'}, {'i': 10}, {'s': '5e-2'}, {'s': '10.5'}, {'f': '2.5'},
@@ -423,6 +468,8 @@ def gen(rng, tier):
             yield g_frame(rng, d30=True)
         elif k % 50 == 13:
             yield g_frame(rng, pxasym=True)
+        elif k % 10 == 4:
+            yield g_ga(rng)
         else:
             yield g_frame(rng)
 
@@ -456,6 +503,20 @@ def corpus():
          'custom': [], 'names': ['APP_ROOT', 'IN_APP_INCLUDE'], 'start': True, 'layout': ['proj', 'src'],
          'files': ['/srv/app/main.py', '/srv/x/../app/m.py', '/opt/shared/m.py', '/opt/sharedness/z.py', '/srv//app/m.py'],
          'timer': False, 'none_config': False},
+    ] + corpus_ga()
+
+
+def corpus_ga():
+    return [
+        # own attribute beats a code entry of the same name; None in code falls through; callable called; env only for
+        # names the module does not have
+        {'kind': 'ga', 'custom': [['plugins', {'i': 1}], ['POLL_TIMER', None], ['MY_KEY', {'call': {'s': 'r'}, 'ck': 'def'}],
+                                  ['SERVICE_URL', {'s': ''}], ['UNKNOWN_A', None]],
+         'custom_none': False, 'env': {'DEEP_MY_KEY': 'e', 'DEEP_UNKNOWN_A': 'fromenv', 'DEEP_plugins': 'p'},
+         'names': ['plugins', 'POLL_TIMER', 'MY_KEY', 'SERVICE_URL', 'UNKNOWN_A', 'APP_ROOTS', 'IN_APP_INCLUDE']},
+        # an object whose custom dict is None: the guard, then module / environment / None
+        {'kind': 'ga', 'custom': [['MY_KEY', {'s': 'ignored'}]], 'custom_none': True, 'env': {'DEEP_MY_KEY': 'e'},
+         'names': ['MY_KEY', 'UNKNOWN_A', 'POLL_TIMER', 'SERVICE_SECURE', 'PLUGINS']},
     ]
 
 
@@ -573,9 +634,47 @@ def run_timer(case):
             t.stop()
 
 
+GA_OWN = OWN + ['_plugins', '_resource']
+
+
+def run_ga(case):
+    from deep.config import ConfigService
+    from deep.config.tracepoint_config import TracepointConfigService
+    import logging as pylog
+    keys = ['DEEP_' + k for k in GA_ENV_KEYS]
+    with _env_lock:
+        saved = {k: os.environ.get(k) for k in keys}
+        pylog.disable(pylog.CRITICAL)
+        try:
+            for k in keys:
+                os.environ.pop(k, None)
+            os.environ.update(case['env'])
+            custom = {k: mk(v) for k, v in case['custom']}
+            cfg = ConfigService(custom, tracepoints=TracepointConfigService())
+            if case['custom_none']:
+                object.__setattr__(cfg, '_ConfigService__custom', None)
+            vals = []
+            for n in case['names']:
+                try:
+                    vals.append(enc(getattr(cfg, n)))
+                except Exception as e:      # noqa: B902
+                    vals.append({'raised': type(e).__name__})
+            # what the deep.config module saw at import and what the module functions see now
+            return {'values': vals, 'exec_prefix': sys.exec_prefix,
+                    'proc_env': {k: v for k, v in os.environ.items() if k.startswith('DEEP_') and k not in case['env']}}
+        except Exception as e:      # noqa: B902
+            return {'raised': f'{type(e).__name__}: {e}'}
+        finally:
+            pylog.disable(pylog.NOTSET)
+            for k, v in saved.items():
+                os.environ.pop(k, None)
+                if v is not None:
+                    os.environ[k] = v
+
+
 def run_impl(case):
     core.use_repo()
-    return {'frame': run_frame, 'lookup': run_lookup, 'timer': run_timer}[case['kind']](case)
+    return {'frame': run_frame, 'lookup': run_lookup, 'timer': run_timer, 'ga': run_ga}[case['kind']](case)
 
 
 # --------------------------------------------------------------------------------------- reference (from the statement)
@@ -807,6 +906,32 @@ def oracle_lookup(case, obs):
     return v
 
 
+def ga_view(case, obs):
+    """the ga case as the lookup reference reads it: no code dict when the object's dict is None, the variables of
+    the harness process next to the generated ones"""
+    return dict(case, start=False, custom=[] if case['custom_none'] else case['custom'],
+                env=dict(obs.get('proc_env', {}), **case['env']))
+
+
+def oracle_ga(case, obs):
+    if 'raised' in obs:
+        return ['configuration raised: ' + obs['raised']]
+    px = obs['exec_prefix']
+    view = ga_view(case, obs)
+    v = []
+    for name, got in zip(case['names'], obs['values']):
+        exp = 'own' if name in GA_OWN else ref_lookup(view, name, px)
+        if exp == 'own':
+            cv = dict((a, b) for a, b in view['custom']).get(name)
+            if cv is not None and norm(got) == norm(called(cv)) and norm(got) not in (None, {'l': []}, {'o': '*'}):
+                v.append(f'{name}: the object\'s own attribute was shadowed by the code dict value {cv}')
+            continue
+        if norm(got) != norm(exp):
+            v.append(f'{name}: resolved to {got}, expected {exp} (code > environment-backed default > DEEP_{name} > '
+                     f'absent; functions are called){" [custom dict is None]" if case["custom_none"] else ""}')
+    return v
+
+
 def oracle_timer(case, obs):
     iv = interval_of(case['interval'])
     if 'raised' in obs:
@@ -822,7 +947,7 @@ def oracle_timer(case, obs):
 
 
 def oracle(case, obs):
-    return {'frame': oracle_frame, 'lookup': oracle_lookup, 'timer': oracle_timer}[case['kind']](case, obs)
+    return {'frame': oracle_frame, 'lookup': oracle_lookup, 'timer': oracle_timer, 'ga': oracle_ga}[case['kind']](case, obs)
 
 
 # --------------------------------------------------------------------------------------- model
@@ -861,6 +986,11 @@ def model_request(case, obs):
             return None     # exponents, inf/nan: outside the modelled float() alphabet
         return {'kind': 'interval', 'custom': [['POLL_TIMER', v]], 'env': [], 'px': '/px'}
     px = obs['exec_prefix']
+    if k == 'ga':
+        return {'kind': 'ga', 'px': px, 'names': case['names'],
+                'env': pairs(dict(obs.get('proc_env', {}), **case['env'])),
+                'custom': None if case['custom_none'] else
+                [[kk, model_cval(v) if v is not None else None] for kk, v in case['custom']]}
     custom = {}
     for kk, v in case['custom']:
         custom[kk] = model_cval(json.loads(px_sub(json.dumps(v), px))) if v is not None else None
@@ -885,7 +1015,7 @@ def compare(case, obs, resp):
         elif alive and float(obs['interval']) != iv:
             d.append(f'interval: model {iv} vs implementation {obs["interval"]}')
         return d
-    if k == 'lookup':
+    if k in ('lookup', 'ga'):
         for n, m, o in zip(case['names'], resp['values'], obs['values']):
             if isinstance(m, dict) and str(m.get('o', '')).startswith(('own attribute', 'module attribute')):
                 continue        # the object's own attribute: its value is outside the model (it is not the custom one:
@@ -894,6 +1024,8 @@ def compare(case, obs, resp):
                 m = {'raised': 'ValueError'}
             if norm(m) != norm(o):
                 d.append(f'{n}: model {m} vs implementation {o}')
+    if k == 'ga':
+        return d
     if k == 'lookup':
         px = obs['exec_prefix']
         if 'secure' in obs and modelled_text(ref_lookup(case, 'SERVICE_SECURE', px)):
@@ -928,6 +1060,8 @@ def label(case, obs):
         return 'timer/' + ('text' if 's' in case['interval'] else 'number')
     if 'raised' in obs:
         return k + '/raised'
+    if k == 'ga':
+        return 'ga/' + ('none-dict' if case['custom_none'] else 'dict') + ('+env' if case['env'] else '')
     if k == 'frame':
         src = []
         c = dict((a, b) for a, b in case['custom'])
@@ -943,6 +1077,11 @@ def nontrivial(case, obs):
         return obs.get('ticks', 0) > 0
     if 'raised' in obs:
         return False
+    if k == 'ga':
+        # a level below "code" decided for some name, and a code value decided for another
+        c = dict((a, b) for a, b in case['custom']) if not case['custom_none'] else {}
+        return any(c.get(n) is None and n not in GA_OWN and o is not None for n, o in zip(case['names'], obs['values'])) \
+            and (case['custom_none'] or any(c.get(n) is not None for n in case['names']))
     fr = obs.get('frames', [])
     if k == 'frame':
         return any(f.get('match') is not None for f in fr) and any(not f.get('app') for f in fr)
@@ -951,6 +1090,16 @@ def nontrivial(case, obs):
 
 def shrink(case):
     if case['kind'] == 'timer':
+        return
+    if case['kind'] == 'ga':
+        ns, cu = case['names'], case['custom']
+        for i in range(len(ns)):
+            if len(ns) > 1:
+                yield dict(case, names=ns[:i] + ns[i + 1:])
+        for i in range(len(cu)):
+            yield dict(case, custom=cu[:i] + cu[i + 1:])
+        for k in list(case['env']):
+            yield dict(case, env={a: b for a, b in case['env'].items() if a != k})
         return
     fs = case['files']
     for i in range(len(fs)):
